@@ -66,7 +66,7 @@ func VerifC02_HostPair() {
 		return []byte("CRT\n\nKEY\n"), nil
 	}
 	sock := &zzCertSock{}
-	d := &dynUpdater{logger: zzLogger{}, socket: sock, metrics: zzMetrics{}}
+	d := zzNewDynUpdater(nil, sock)
 	updated := d.checkHostPair(&hostPair{old: old, cur: cur})
 
 	fileChanged := old.TLS.TLSFilename != cur.TLS.TLSFilename
